@@ -249,8 +249,7 @@ func c13Configs(c *Ctx) []c13Cfg {
 		}
 	} else {
 		for _, k := range kindNames {
-			out = append(out, c13Cfg{k, 3, 3, nestClasses[:7], false})
-			out = append(out, c13Cfg{k, 3, 2, nestClasses, false})
+			out = append(out, c13Cfg{k, 3, 3, nestClasses, false})
 		}
 	}
 	out = append(out, c13Cfg{"CONDITION", 1, 1, []string{"prim", "nil", "stack", "alias", "ptr-alias", "cond", "cond(stack)", "aliasS", "ptr-stack"}, true})
